@@ -156,6 +156,8 @@ def check(tier):
     # the queue's own insertion rule (slot = nearest grid time, clamped to the horizon): C20's add obligations
     adds = [(R, C, s_, r) for R in (1, 2) for C in (2, 3) for s_ in range(C) for r in range(R)]
     ck.add("queue-add", "harness.C20", "add_job", dict(cases=adds))
+    # a queue handed from one simulation to the next: re-timing keeps every pending delivery at its distance
+    ck.add("queue-retime", "harness.C20", "retime_job", dict(cases=[(R, C, s_) for R in (1, 2) for C in (2, 3) for s_ in range(C)]))
     from . import C05
     for cse in C05.cases("quick")[:3]:
         ck.add("ssa-init/S%dR%dT%d/ci%d" % cse, "harness.C05", "step_job", dict(cases=[cse], facets=["init", "feasible"]))
